@@ -39,11 +39,53 @@ def rawFromWords (len : Nat) (ws : List Nat) : RawVec :=
 def bitsFromWords (len : Nat) (ws : List Nat) : List Bool :=
   (List.range len).map fun j => (ws[j / 64]?.getD 0).testBit (j % 64)
 
+/-! raw vectors beyond 2^32 bits: segments `(count, bit)`; answers in closed form, used as both spec and model column
+(the model's word array is not materialised at this size; see the remark in Driver/Bv.lean) -/
+namespace HugeRaw
+def len (segs : List (Nat × Bool)) : Nat := (segs.map (·.1)).sum
+def ones (segs : List (Nat × Bool)) : Nat := ((segs.filter (·.2)).map (·.1)).sum
+def bitAt : List (Nat × Bool) → Nat → Bool
+  | [], _ => false
+  | (c, b) :: rest, i => if i < c then b else bitAt rest (i - c)
+/-- keep the first `n` bits -/
+def take : List (Nat × Bool) → Nat → List (Nat × Bool)
+  | [], _ => []
+  | (c, b) :: rest, n => if n = 0 then [] else if n < c then [(n, b)] else (c, b) :: take rest (n - c)
+def setBit (segs : List (Nat × Bool)) (i : Nat) (b : Bool) : List (Nat × Bool) :=
+  take segs i ++ [(1, b)] ++ (let l := len segs; if i + 1 < l then
+    -- the part after position i: drop i+1 bits
+    let rec drop : List (Nat × Bool) → Nat → List (Nat × Bool)
+      | [], _ => []
+      | (c, x) :: rest, n => if n = 0 then (c, x) :: rest else if n < c then (c - n, x) :: rest else drop rest (n - c)
+    drop segs (i + 1) else [])
+end HugeRaw
+
+def evalHugeRaw (st : DState) (name : String) (segs : List (Nat × Bool)) (t : List String) : Eval :=
+  let put (s' : List (Nat × Bool)) : Eval :=
+    let out := s!"{HugeRaw.len s'} {HugeRaw.ones s'}"
+    { st := { (st.note "raw.huge") with hraws := st.hraws.insert name s' }, model := out, spec := some out }
+  match t with
+  | ["hresize", n, b] => let n := num n; let b := b == "1"
+    let l := HugeRaw.len segs
+    put (if n ≥ l then segs ++ (if n > l then [(n - l, b)] else []) else HugeRaw.take segs n)
+  | ["hset_bit", i, b] => let i := num i
+    if i < HugeRaw.len segs then put (HugeRaw.setBit segs i (b == "1")) else { st := st, model := "*" }
+  | ["hpush_bit", b] => put (segs ++ [(1, b == "1")])
+  | ["hcount"] => put segs
+  | ["bit", i] => let i := num i
+    if i < HugeRaw.len segs then let o := rBool01 (HugeRaw.bitAt segs i); { st := st.note "raw.huge", model := o, spec := some o }
+    else { st := st, model := "*" }
+  | _ => { st := st, model := "driver:unknown-huge-raw-op" }
+
 def evalRaw (st : DState) (name : String) (t : List String) : Eval :=
   let raws := st.raws
   let mk (o : RawObj) (pre : String := "") (preS : String := "") : Eval :=
     { st := { st with raws := raws.insert name o }, model := pre ++ rawStateModel o.m, spec := some (preS ++ rawStateSpec o.s) }
   match t with
+  | ["huge", n, b] => let n := num n; let b := b == "1"
+    let segs := if n = 0 then [] else [(n, b)]
+    let out := s!"{HugeRaw.len segs} {HugeRaw.ones segs}"
+    { st := { (st.note "raw.huge") with hraws := st.hraws.insert name segs, raws := raws.erase name }, model := out, spec := some out }
   | ["new"] => mk ⟨RawVec.empty, []⟩
   | ["with_len", n, b] => let n := num n; let b := b == "1"
     let e := mk ⟨RawVec.withLen n b, List.replicate n b⟩
@@ -60,7 +102,9 @@ def evalRaw (st : DState) (name : String) (t : List String) : Eval :=
     | _, _ => { st := st, model := "panic:no-object" }
   | _ =>
     match raws[name]? with
-    | none => { st := st, model := "panic:no-object" }
+    | none => (match st.hraws[name]? with
+        | some segs => evalHugeRaw st name segs t
+        | none => { st := st, model := "panic:no-object" })
     | some o =>
       let same (model : String) (spec : Option String) (r : String := "") : Eval :=
         { st := if r = "" then st else st.note r, model := model, spec := spec }
